@@ -316,6 +316,16 @@ void snoopy_configuration_dtor ()
         CFG->syslog_ident_format_malloced = SNOOPY_FALSE;                 /* Set this to false         - REQUIRED (see above) */
         CFG->syslog_ident_format          = SNOOPY_SYSLOG_IDENT_FORMAT;   /* Set this to default value - REQUIRED (see above) */
     }
+
+    /*
+     * Reset everything else (error logging, syslog facility/level, message
+     * length limits, config file flags) to built-in defaults too.
+     *
+     * Without thread safety the configuration structure is static and survives
+     * from one exec() call to the next; an option that has since been removed
+     * from (or corrupted in) snoopy.ini must not stay in force.
+     */
+    snoopy_configuration_setDefaults(CFG);
 }
 
 
